@@ -26,6 +26,7 @@ type RunObs struct {
 	Restart []bool     `json:"restart"`
 	Batches []BatchObs `json:"batches"`
 	Final   Final      `json:"final"`
+	Crash   string     `json:"crash,omitempty"` // the implementation panicked during this run
 }
 
 type Case struct {
@@ -269,7 +270,7 @@ func batchings(o *c.Out, n int) []RunObs {
 func execCase(k *Case) {
 	for i := range k.Runs {
 		r := &k.Runs[i]
-		r.Batches, r.Final = execute(k.plan(r))
+		r.Batches, r.Final, r.Crash = execute(k.plan(r))
 	}
 }
 
@@ -277,6 +278,9 @@ func process(o *c.Out, k *Case) {
 	execCase(k)
 	conv, restart, usable := false, false, true
 	for _, r := range k.Runs {
+		if r.Crash != "" {
+			usable = false
+		}
 		for _, b := range r.Batches {
 			if b.Converged && (len(b.RekeyE) > 0) {
 				conv = true
@@ -292,16 +296,14 @@ func process(o *c.Out, k *Case) {
 	o.Count(fmt.Sprintf("records=%02d", len(k.Records)))
 	o.Count(fmt.Sprintf("threshold=%d", k.Threshold))
 	o.Count(fmt.Sprintf("rekeyed-nonempty=%v", conv))
-	idx := -1
-	if usable {
-		idx = o.Case("stream", coq(k), slim(k), conv && restart)
-	} else {
-		// one phase normalised the same URL in two ways: no function url -> url
-		// describes it; those runs are monitored but not given to the model
-		kk := *k
+	// Runs the model cannot be given: the implementation crashed, or one phase
+	// normalised the same URL in two ways (no function url -> url describes
+	// that).  They are still monitored.
+	kk := *k
+	if !usable {
 		kk.Runs = nil
 		for _, r := range k.Runs {
-			ok := true
+			ok := r.Crash == ""
 			for _, b := range r.Batches {
 				if b.OracleAmbiguous {
 					ok = false
@@ -309,12 +311,14 @@ func process(o *c.Out, k *Case) {
 			}
 			if ok {
 				kk.Runs = append(kk.Runs, r)
+			} else if r.Crash != "" {
+				o.Count("run-not-modelled:crash")
 			} else {
 				o.Count("run-not-modelled:ambiguous-oracle")
 			}
 		}
-		idx = o.Case("stream", coq(&kk), slim(&kk), conv && restart)
 	}
+	idx := o.Case("stream", coq(&kk), slim(&kk), conv && restart)
 	o.CountN("runs", len(k.Runs))
 	for _, h := range monitor(o, k) {
 		h.Suite, h.Index = "stream", idx
@@ -331,6 +335,7 @@ func main() {
 	o := c.NewOut("C15")
 	o.ShardSize = 12
 	o.DeclareSuite("stream", "From Coq Require Import Uint63.\nFrom Verif Require Import C15.Model.", "fcase", "run_flat")
+	o.DeclareSuite("witness", "From Coq Require Import Uint63.\nFrom Verif Require Import C15.Model C15.Witness.", "fcase", "run_witness")
 	o.Rule("random access-log streams of 1-30 records over small URL alphabets (2-6 path parts, depth 1-3, " +
 		"1-3 hosts, split threshold 1-3 so that path-parameter convergence happens mid-stream; some streams with " +
 		"empty path parts, ':::' in a URL, '{id}' parts, declared endpoints, second-aligned stamps), each run " +
@@ -343,10 +348,20 @@ func main() {
 		o.Finish()
 		return
 	}
-	// the witness of the batch-dependence finding runs first (see Property.v)
+	// the witness of the batch-dependence finding runs first (Witness.v): the
+	// implementation must still produce exactly the recorded observations
 	w := witnessCase()
-	process(o, &w)
-	n := o.Scale(150, 2500, 1200)
+	execCase(&w)
+	widx := o.Case("witness", coq(&w), slim(&w), true)
+	for _, h := range monitor(o, &w) {
+		h.Suite, h.Index = "witness", widx
+		o.Hit(h)
+	}
+	for _, k := range corpusCases() {
+		k := k
+		process(o, &k)
+	}
+	n := o.Scale(120, 1200, 1000)
 	for i := 0; i < n; i++ {
 		maxLen := 30
 		if i%3 == 0 {
